@@ -42,6 +42,9 @@ fn main() {
         }
         i += 1;
     }
+    if let ("C20", Ok(spec)) = (id.as_str(), std::env::var("C20_CHILD")) {
+        props::c20::child_main(seed, &spec);
+    }
     let mut ctx = Ctx::new(&id, tier, seed);
     if let Some(path) = replay {
         ctx.replay_mode = true;
